@@ -308,6 +308,7 @@ def run_part(h, tier, seed, part, nparts, rundir, frm=0, only=None, attempt=0, a
     env['VERIF_SEED'] = str(seed)
     env['VERIF_SCRATCH'] = os.path.join(rundir, 'scratch_%s_%d' % (h.name, part))
     env['VERIF_REPO_DIR'] = REPO
+    env['LC_ALL'] = 'C.utf8'  # the only UTF-8 locale installed; the locale-less string conversions use std::locale("")
     if h.cfg == 'tsan':
         env['TSAN_OPTIONS'] = ('halt_on_error=0:second_deadlock_stack=1:report_signal_unsafe=0:'
                                'exitcode=0:log_path=' + os.path.join(rundir, 'tsan_%s_%d' % (h.name, part)))
